@@ -447,7 +447,7 @@ def while_body(loop):
 
 ALIAS_RULE = ("the register fields whose writes the guard rules judge are mutated, outside constructors and resets, only by plain "
               "assignments `self.f[..] = v` / `op=` or by the tabled in-place methods (swap of two positions, sort of the per-position "
-              "range): no `&mut self.f..` reference, `iter_mut()`, `get_mut()`, `as_mut_slice()` … is created — a write through such a "
+              "range, a paired copy_within shift of the store): no `&mut self.f..` reference, `iter_mut()`, `get_mut()`, `as_mut_slice()` … is created — a write through such a "
               "reference would be invisible to GUARD / PAIR / TIE / HISTO / MARKER / RESET-prefix")
 
 # prefix -> (register fields, {(field, method)} allowed in-place methods, functions whose mutations the RESET analysis judges)
@@ -461,7 +461,7 @@ ALIAS_TABLE = {
     "setsketcher::SetSketcher::<I, T, H>::": (["k_vec", "lower_k", "nbmin"], set(), ("new", "reinit", "default")),
     "densminhash::OptDensMinHash::<F, D, H>::": (["hsketch", "values", "init", "nb_empty"], set(), ("new", "reinit")),
     "densminhash::RevOptDensMinHash::<F, D, H>::": (["hsketch", "values", "init", "nb_empty"], set(), ("new", "reinit")),
-    "probminhasher::probordminhash2::OrdMinHashStore::<V>::": (["values", "indices"], {("indices", "sort_unstable"), ("indices", "sort")}, ("new", "reset")),
+    "probminhasher::probordminhash2::OrdMinHashStore::<V>::": (["values", "indices"], {("indices", "sort_unstable"), ("indices", "sort"), ("values", "copy_within"), ("indices", "copy_within")}, ("new", "reset")),
     "maxvaluetrack::MaxValueTracker::<V>::": (["values"], set(), ("new", "reset")),
     "fyshuffle::FYshuffle::": (["v", "lastidx"], {("v", "swap")}, ("new", "reset")),
 }
